@@ -415,6 +415,9 @@ func goImpl(site string, fn func(), daemon bool) {
 		go fn()
 		return
 	}
+	if s.poison {
+		return // the run is over; nothing new starts
+	}
 	if g == nil {
 		s.unknownSpawns.Add(1)
 		go fn()
@@ -439,7 +442,7 @@ func Yield(class uint8) {
 		return
 	}
 	if s.poison {
-		return
+		runtime.Goexit()
 	}
 	if class > ClassLock && s.cfg.ClassMask&(1<<class) == 0 {
 		return
@@ -882,9 +885,15 @@ func (s *Sim) Run(main func()) *Result {
 		}
 	}
 	s.teardown()
-	cur.Store(nil)
+	// The poisoned simulator stays installed until the bubble has ended
+	// (Uninstall): goroutines that were blocked inside the Go runtime and wake
+	// up now (their contexts get cancelled) must not fall through to the real
+	// primitives; they exit at their first yield.
 	return &s.res
 }
+
+// Uninstall removes the simulator after the bubble has ended.
+func Uninstall() { cur.Store(nil) }
 
 // advance lets virtual time move to the next timer. It reports whether some
 // goroutine reacted (parked or finished) before the stall horizon.
@@ -930,6 +939,25 @@ func (s *Sim) teardown() {
 func Poisoned() bool {
 	s := cur.Load()
 	return s != nil && s.poison
+}
+
+// LiveNonDaemon returns the number of simulated goroutines that have not
+// finished, not counting harness daemons.
+//
+//go:norace
+func LiveNonDaemon() int {
+	s := cur.Load()
+	if s == nil {
+		return 0
+	}
+	n := 0
+	for i := 0; i < s.ng; i++ {
+		g := &s.gs[i]
+		if g.state != stDone && g.state != stFree && !g.Daemon {
+			n++
+		}
+	}
+	return n
 }
 
 // LiveStacks returns the stacks of all goroutines (debug aid for leak reports).
